@@ -56,7 +56,7 @@ func C14(p *core.Program, r *core.Report) {
 	r.NotCovered = "the three parsers' internals (nested microdata, type dependent OpenGraph properties, IE meta tags), i.e. what each source reports; only the combination of the sources is decided."
 
 	// ---- P1
-	np := mustFunc(p, r, "P1", markupPkg+".NewParser")
+	np := mustInl(p, r, "P1", markupPkg+".NewParser")
 	if np != nil {
 		type app struct {
 			call *ssa.Call
@@ -159,7 +159,7 @@ func C14(p *core.Program, r *core.Report) {
 	}
 
 	// ---- P2
-	ogNew := mustFunc(p, r, "P2", markupPkg+"/opengraph.NewParser")
+	ogNew := mustInl(p, r, "P2", markupPkg+"/opengraph.NewParser")
 	if ogNew != nil {
 		opts := core.DecisionOpts{Outcome: func(in ssa.Instruction, c *core.Canon) (string, bool) {
 			if ret, ok := in.(*ssa.Return); ok && len(ret.Results) == 2 {
@@ -180,10 +180,10 @@ func C14(p *core.Program, r *core.Report) {
 		ps := `new(opengraph.Parser)`
 		spec := core.DecisionSpec{
 			Atoms: map[string]string{
-				"title.empty": q(ps + `.propertyTable["title"] == ""`),
-				"type.empty":  q(ps + `.propertyTable["type"] == ""`),
-				"url.empty":   q(ps + `.propertyTable["url"] == ""`),
-				"no.image":    q(`len(` + ps + `.imageParser.ImageList) == 0`),
+				"title.empty": q(ps + `.‹map[string]string›["title"] == ""`),
+				"type.empty":  q(ps + `.‹map[string]string›["type"] == ""`),
+				"url.empty":   q(ps + `.‹map[string]string›["url"] == ""`),
+				"no.image":    q(`len(` + ps + `.‹opengraph.ImagePropParser›.ImageList) <= 0`),
 			},
 			Rules: []core.SpecRule{
 				{Name: "og:title required", Guard: core.A("title.empty"), Outcome: "reject"},
@@ -199,7 +199,7 @@ func C14(p *core.Program, r *core.Report) {
 
 	// ---- P3 getters
 	type getter struct{ name, emptyAtom, dflt string }
-	el := `elem($0.accessors)`
+	el := `elem($0.‹[]markup.Accessor›)`
 	getters := []getter{
 		{"Title", `iface.Title(` + el + `) == ""`, `return ""`},
 		{"Type", `iface.Type(` + el + `) == ""`, `return ""`},
@@ -213,7 +213,7 @@ func C14(p *core.Program, r *core.Report) {
 		{"OptOut", `iface.OptOut(` + el + `)`, `return false`},
 	}
 	for _, g := range getters {
-		fn := mustFunc(p, r, "P3", "(*"+markupPkg+".Parser)."+g.name)
+		fn := mustInl(p, r, "P3", "(*"+markupPkg+".Parser)."+g.name)
 		if fn == nil {
 			continue
 		}
@@ -236,7 +236,7 @@ func C14(p *core.Program, r *core.Report) {
 		}
 		spec := core.DecisionSpec{
 			Atoms: map[string]string{
-				"loop":  q(`loop1((μ((@0 + 1)|-1) + 1) < len($0.accessors))`),
+				"loop":  q(`loop1(μ((@0 + 1)|0) < len($0.‹[]markup.Accessor›))`),
 				"empty": q(g.emptyAtom),
 			},
 			Rules: []core.SpecRule{
@@ -252,7 +252,7 @@ func C14(p *core.Program, r *core.Report) {
 	checkOptOutDetection(p, r)
 
 	// ---- P4 / P5
-	mi := mustFunc(p, r, "P4", "(*"+markupPkg+".Parser).MarkupInfo")
+	mi := mustInl(p, r, "P4", "(*"+markupPkg+".Parser).MarkupInfo")
 	if mi != nil {
 		optOut := core.IsCallValue("(*" + markupPkg + ".Parser).OptOut")
 		cutNotOpt := core.CutWhere(mi, optOut, false) // remove "OptOut()==false" edges
@@ -337,27 +337,40 @@ func neverAfter(a, b ssa.Instruction) bool {
 // given to the markup parser, with the documented name/content test.
 func checkOptOutDetection(p *core.Program, r *core.Report) {
 	c := core.NewCanon(p)
-	if np := mustFunc(p, r, "P6", markupPkg+"/iereader.NewParser"); np != nil {
+	if np := mustInl(p, r, "P6", markupPkg+"/iereader.NewParser"); np != nil {
 		ok := false
 		for _, a := range allocsOfAny(np) {
 			fs := fieldStores(a)
-			if len(fs["allMeta"]) == 1 {
-				ok = c.Of(fs["allMeta"][0]) == `dom.GetElementsByTagName($0,"meta")`
+			if len(fs["‹[]*html.Node›"]) == 1 {
+				ok = c.Of(fs["‹[]*html.Node›"][0]) == `dom.GetElementsByTagName($0,"meta")`
 			}
 		}
 		r.Add("P6", "the IE reader looks at every meta element below its root", p.Pos(np.Pos()), ok, `allMeta = dom.GetElementsByTagName(root,"meta")`)
 	}
-	if mp := mustFunc(p, r, "P6", markupPkg+".NewParser"); mp != nil {
+	if mp := mustInl(p, r, "P6", markupPkg+".NewParser"); mp != nil {
 		for _, call := range core.Calls(mp, func(ci ssa.CallInstruction) bool {
 			return core.IsCallTo(ci, markupPkg+"/iereader.NewParser", markupPkg+"/schemaorg.NewParser", markupPkg+"/opengraph.NewParser")
 		}) {
 			r.Add("P6", core.ShortKey(core.Callee(call))+" parses the whole root given to the markup parser", p.Pos(call.Pos()), c.Of(call.Common().Args[0]) == "$0", "root = "+c.Of(call.Common().Args[0]))
 		}
 	}
-	if fo := mustFunc(p, r, "P6", "(*"+markupPkg+"/iereader.Parser).findOptOut"); fo != nil {
+	if fo := mustInl(p, r, "P6", "(*"+markupPkg+"/iereader.Parser).OptOut"); fo != nil {
+		// the flag that OptOut reports
+		flag := ""
+		okRet := true
+		for _, ret := range core.Returns(fo) {
+			s := c.Of(ret.Results[0])
+			if flag == "" {
+				flag = s
+			}
+			if s != flag || !strings.HasPrefix(s, "$0.‹bool") {
+				okRet = false
+			}
+		}
+		r.Add("P6", "OptOut reports the parser's opt-out flag", p.Pos(fo.Pos()), okRet && flag != "", "returns "+flag)
 		hs := loopHeaders(fo)
 		if len(hs) != 1 {
-			r.Undecided("P6", "findOptOut loop", "expected one loop")
+			r.Undecided("P6", "OptOut: search loop", fmt.Sprintf("expected one loop, found %d", len(hs)))
 		} else {
 			paths, atoms, _ := core.EnumerateDecisions(p, fo, core.DecisionOpts{IterateAt: hs[0],
 				Outcome: func(in ssa.Instruction, c *core.Canon) (string, bool) {
@@ -367,12 +380,12 @@ func checkOptOutDetection(p *core.Program, r *core.Report) {
 					return "", false
 				},
 				Event: func(in ssa.Instruction, c *core.Canon) (string, bool) {
-					if st, ok := in.(*ssa.Store); ok && c.Of(st.Addr) == "&$0.optOut" {
+					if st, ok := in.(*ssa.Store); ok && c.Of(st.Addr) == "&"+flag {
 						return "optOut=" + c.Of(st.Val), true
 					}
 					return "", false
 				}})
-			el := `elem($0.allMeta)`
+			el := `elem($0.‹[]*html.Node›)`
 			spec := core.DecisionSpec{
 				Atoms: map[string]string{"is.optout.tag": q(`strings.ToUpper(dom.GetAttribute(` + el + `,"name")) == "IE_RM_OFF"`)},
 				Rules: []core.SpecRule{
@@ -380,23 +393,13 @@ func checkOptOutDetection(p *core.Program, r *core.Report) {
 					{Name: "any other meta tag: keep looking", Guard: core.True(), Outcome: "next()"},
 				},
 			}
-			core.CheckDecisionList(r, "P6", "findOptOut(iteration)", paths, atoms, spec)
+			core.CheckDecisionList(r, "P6", "OptOut(search iteration)", paths, atoms, spec)
 			at := ""
 			if ifi, ok := hs[0].Instrs[len(hs[0].Instrs)-1].(*ssa.If); ok {
 				at, _ = core.NewCanon(p).CondAtom(ifi.Cond)
 			}
-			r.Add("P6", "findOptOut scans the complete meta list", p.Pos(fo.Pos()), at == `(μ((@0 + 1)|-1) + 1) < len($0.allMeta)`, at)
+			r.Add("P6", "the search scans the complete meta list", p.Pos(fo.Pos()), at == `μ((@0 + 1)|0) < len($0.‹[]*html.Node›)`, at)
 		}
-	}
-	if oo := mustFunc(p, r, "P6", "(*"+markupPkg+"/iereader.Parser).OptOut"); oo != nil {
-		okRet := true
-		for _, ret := range core.Returns(oo) {
-			if c.Of(ret.Results[0]) != "$0.optOut" {
-				okRet = false
-			}
-		}
-		n := len(core.Calls(oo, func(ci ssa.CallInstruction) bool { return core.IsCallTo(ci, "(*"+markupPkg+"/iereader.Parser).findOptOut") }))
-		r.Add("P6", "OptOut reports what findOptOut determined", p.Pos(oo.Pos()), okRet && n == 1, "")
 	}
 }
 
